@@ -311,13 +311,13 @@ func (ch *channel) receivedSegData(rsd recSegData) {
 		ch.mu.RLock()
 		nrTracks := uint32(len(ch.trDatas))
 		ch.mu.RUnlock()
-		newSeqNr, err := ch.segTimesGen.addSegmentData(log, rsd, nrTracks)
+		updateMPD, err := ch.segTimesGen.addSegmentData(log, rsd, nrTracks)
 		if err != nil {
 			log.Error("Failed to add segment data", "err", err)
 		}
-		if newSeqNr != 0 {
+		if updateMPD {
 			nowMS := time.Now().UnixNano() / 1_000_000
-			err := ch.segTimesGen.generateSegmentTimelineNrMPD(log, newSeqNr, ch, nowMS)
+			err := ch.segTimesGen.generateSegmentTimelineNrMPD(log, ch, nowMS)
 			if err != nil {
 				log.Error("Failed to generate segment times", "err", err)
 			}
